@@ -517,7 +517,15 @@ func spawnWorker(job workerJob, gomaxprocs int) (*WorkerOut, error) {
 	b, rerr := os.ReadFile(job.Out)
 	os.Remove(job.Out)
 	if rerr != nil {
-		return nil, fmt.Errorf("worker produced no result (%v): %s", err, tail(stderr.String(), 2000))
+		out := stderr.String()
+		if f := os.Getenv("VERIF_WORKER_LOG"); f != "" {
+			os.WriteFile(f, []byte(out), 0o644)
+		}
+		head := out
+		if len(head) > 1500 {
+			head = head[:1500] + "\n[...]\n" + tail(out, 1500)
+		}
+		return nil, fmt.Errorf("worker produced no result (%v): %s", err, head)
 	}
 	var wo WorkerOut
 	if jerr := json.Unmarshal(b, &wo); jerr != nil {
